@@ -7,8 +7,798 @@ namespace Yalafi
 
 variable (T : PTables)
 
+/- helper lemmas live in their own namespace to avoid clashes with the other step files -/
+namespace HandlerStep
+
+/-! ### small token facts -/
+
+theorem BL_nil (n : Nat) : BL T n [] := by
+  intro t ht; cases ht
+
+theorem BL_cons (n : Nat) (t : Tok) (ts : List Tok) : BL T n (t :: ts) ↔ BTok T n t ∧ BL T n ts := by
+  simp [BL]
+
+theorem BTok_pos {n : Nat} {t : Tok} (h : BTok T n t) : t.pos < n := h.1.1
+
+theorem getLast?_mem {α} {l : List α} {a : α} (h : l.getLast? = some a) : a ∈ l := by
+  obtain ⟨ys, rfl⟩ := List.getLast?_eq_some_iff.mp h
+  simp
+
+theorem BL_last_pos {n : Nat} {a : List Tok} {l : Tok} (ha : BL T n a) (h : a.getLast? = some l) : l.pos < n :=
+  (ha l (getLast?_mem h)).1.1
+
+theorem BL_head_pos {n : Nat} {a : List Tok} {l : Tok} (ha : BL T n a) (h : a.head? = some l) : l.pos < n :=
+  (ha l (List.mem_of_mem_head? (by simp [h]))).1.1
+
+theorem BTok_mkFix_text (n p : Nat) (txt : Str) (h : p < n) : BTok T n (mkFix .text p txt) :=
+  OTok_BTok T n _ (OTok_mkFix T n p .text txt h (Or.inl rfl))
+
+theorem BTok_mkFix_space (n p : Nat) (txt : Str) (h : p < n) : BTok T n (mkFix .space p txt) :=
+  OTok_BTok T n _ (OTok_mkFix T n p .space txt h (Or.inr (Or.inl rfl)))
+
+theorem BTok_mkAction (n p : Nat) (h : p < n) : BTok T n (mkAction p) :=
+  OTok_BTok T n _ (OTok_mkAction T n p h)
+
+theorem BTok_mkLang (n p : Nat) (l : Str) (b h k : Bool) (hp : p < n) : BTok T n (mkLang p l b h k) :=
+  OTok_BTok T n _ (OTok_mkLang T n p l b h k hp)
+
+theorem BTok_mkTok1_text (n p : Nat) (c : Char) (h : p < n) : BTok T n (mkTok .text p [c]) :=
+  OTok_BTok T n _ (OTok_mkTok1 T n p .text c h (Or.inl rfl))
+
+theorem BTok_mkTok1_space (n p : Nat) (c : Char) (h : p < n) : BTok T n (mkTok .space p [c]) :=
+  OTok_BTok T n _ (OTok_mkTok1 T n p .space c h (Or.inr rfl))
+
+theorem BTok_mkTok_xmacro (n p : Nat) (txt : Str) (h : p < n) : BTok T n (mkTok .xmacro p txt) := by
+  simp [BTok, TokOk, mkTok, extent, ctlEmpty, mbOk, isMathTok, h]
+  omega
+
+/-- the three special keys handlers create tokens for -/
+theorem BTok_mkTok_special (hw : T.WFInv) (n p : Nat) (k : Str)
+    (hk : k ∈ [['{'], ['}'], ['\\', ';']]) (h : p < n) : BTok T n (mkTok .special p k) := by
+  obtain ⟨v, hv, hl⟩ := hw.special_small k hk
+  simp [BTok, TokOk, mkTok, extent, ctlEmpty, mbOk, isMathTok, hv, h]
+  omega
+
+/-! ### frame bookkeeping -/
+
+theorem Good_refl (nroot : Nat) (st : PState) (hg : G T nroot st) : Good T nroot st st := ⟨hg, rfl, rfl⟩
+
+theorem Good_trans {nroot : Nat} {st0 s s' : PState} (h0 : Good T nroot st0 s) (h1 : Good T nroot s s') :
+    Good T nroot st0 s' :=
+  ⟨h1.1, h1.2.1.trans h0.2.1, h1.2.2.trans h0.2.2⟩
+
+theorem Good_len {nroot : Nat} {st0 s : PState} (h0 : Good T nroot st0 s) : s.latex.length = st0.latex.length := by
+  rw [h0.2.1]
+
+/-- the local `arg k` of `callHandler`, bound to a continuation -/
+theorem Post_argBind {β} (args : List (List Tok)) (k : Nat) (f : List Tok → M β) (st : PState)
+    (R : β → PState → Prop) (h : ∀ a ∈ args, Post (f a st) R) :
+    Post (((match args[k]? with
+            | some a => pure a
+            | none => M.crash "handler:args[k]" : M (List Tok)) >>= f) st) R := by
+  apply Post_bind _ _ _ (fun a s => s = st ∧ a ∈ args)
+  · cases hk : args[k]? with
+    | none => exact Post_crash _ _ _
+    | some a => exact Post_pure _ _ _ ⟨rfl, List.mem_of_getElem? hk⟩
+  · rintro a s ⟨rfl, ha⟩
+    exact h a ha
+
+theorem Post_getBind {β} (f : PState → M β) (st : PState) (R : β → PState → Prop)
+    (h : Post (f st st) R) : Post ((M.get >>= f) st) R := by
+  apply Post_bind _ _ _ (fun a s => a = st ∧ s = st) _ (Post_get _ _ ⟨rfl, rfl⟩)
+  rintro a s ⟨rfl, rfl⟩
+  exact h
+
+theorem Post_modifyPure {β} (f : PState → PState) (x : β) (st : PState) (R : β → PState → Prop)
+    (h : R x (f st)) : Post ((M.modify f >>= fun _ => (pure x : M β)) st) R := by
+  apply Post_bind _ _ _ (fun _ s => s = f st) _ (Post_modify _ _ _ rfl)
+  rintro _ s rfl
+  exact Post_pure _ _ _ h
+
+theorem ite_prop {α} (P : α → Prop) (c : Prop) [Decidable c] (a b : α) (ha : P a) (hb : P b) :
+    P (if c then a else b) := by
+  split <;> assumption
+
+/-! ### state updates -/
+
+theorem mem_setMacro {ms : List MacroDef} {m x : MacroDef} (h : x ∈ setMacro ms m) : x ∈ ms ∨ x = m := by
+  unfold setMacro at h
+  split at h
+  · rw [List.mem_map] at h
+    obtain ⟨y, hy, rfl⟩ := h
+    split
+    · exact Or.inr rfl
+    · exact Or.inl hy
+  · simpa using h
+
+theorem G_setMacros {nroot : Nat} {s : PState} (hg : G T nroot s) (m : MacroDef) (hm : macroToksOk T m = true) :
+    G T nroot { s with macros := setMacro s.macros m } := by
+  refine { flows := hg.flows, macros := ?_, envs := hg.envs, gloss := hg.gloss, root := hg.root,
+           inFrame := hg.inFrame }
+  intro x hx
+  rcases List.mem_append.mp hx with hx | hx
+  · rcases mem_setMacro hx with hx | rfl
+    · exact hg.macros x (List.mem_append_left _ hx)
+    · exact hm
+  · exact hg.macros x (List.mem_append_right _ hx)
+
+theorem G_setEnvs {nroot : Nat} {s : PState} (hg : G T nroot s) (m : MacroDef) (hm : macroToksOk T m = true)
+    (he : envOk T m = true) :
+    G T nroot { s with envs := setMacro s.envs m } := by
+  refine { flows := hg.flows, macros := ?_, envs := ?_, gloss := hg.gloss, root := hg.root,
+           inFrame := hg.inFrame }
+  · intro x hx
+    rcases List.mem_append.mp hx with hx | hx
+    · exact hg.macros x (List.mem_append_left _ hx)
+    · rcases mem_setMacro hx with hx | rfl
+      · exact hg.macros x (List.mem_append_right _ hx)
+      · exact hm
+  · intro x hx
+    rcases mem_setMacro hx with hx | rfl
+    · exact hg.envs x hx
+    · exact he
+
+theorem BL_all_storedOk {n : Nat} {ts : List Tok} (h : BL T n ts) : ts.all (storedOk T) = true := by
+  rw [List.all_eq_true]
+  intro t ht
+  exact BTok_storedOk T n t (h t ht)
+
+
+/-! ### pure helper functions of the handlers -/
+
+theorem lastPos_lt {n pos : Nat} {l : List Tok} (hl : BL T n l) (hp : pos < n) :
+    (Option.map (fun x => x.pos) l.getLast?).getD pos < n := by
+  cases h : l.getLast? with
+  | none => simpa using hp
+  | some t => simpa using BL_last_pos T hl h
+
+theorem BL_bibCite (n : Nat) (args : List (List Tok)) (pos : Nat) (o : List Tok)
+    (ha : ∀ a ∈ args, BL T n a) (hp : pos < n) (h : bibCite T args pos = some o) : BL T n o := by
+  unfold bibCite at h
+  split at h
+  · rename_i o1 o2 h1 h2
+    have hA1 := ha o1 (List.mem_of_getElem? h1)
+    have hA2 := ha o2 (List.mem_of_getElem? h2)
+    extract_lets isVoid opt1 pre post out0 lastPos out1 out2 out3 at h
+    have hopt1 : BL T n opt1 := ite_prop (BL T n) _ _ _ (BL_nil T n) hA1
+    have hpre : BL T n pre := ite_prop (BL T n) _ _ _ (BL_nil T n) hopt1
+    have hpost : BL T n post := ite_prop (BL T n) _ _ _ hopt1 (ite_prop (BL T n) _ _ _ (BL_nil T n) hA2)
+    have hout0 : BL T n out0 := by simp [out0, BL_cons, BL_nil, BTok_mkFix_text, hp]
+    have hlast : ∀ l, BL T n l → lastPos l < n := fun l hl => lastPos_lt T hl hp
+    have hout1 : BL T n out1 := by
+      apply ite_prop (BL T n) _ _ _ hout0
+      have := hlast (out0 ++ pre) ((BL_append T n _ _).mpr ⟨hout0, hpre⟩)
+      simp [BL_append, BL_cons, BL_nil, BTok_mkFix_space, hout0, hpre, this]
+    have hout2 : BL T n out2 := by
+      simp [out2, BL_append, BL_cons, BL_nil, BTok_mkFix_text, hout1, hlast out1 hout1]
+    have hout3 : BL T n out3 := by
+      apply ite_prop (BL T n) _ _ _ hout2
+      simp [BL_append, BL_cons, BTok_mkFix_text, BTok_mkFix_space, hout2, hpost, hlast out2 hout2]
+    cases h
+    simp [BL_append, BL_cons, BL_nil, BTok_mkFix_text, BTok_mkAction, hout3, hlast out3 hout3]
+  · cases h
+
+theorem upperTok_storedOk (t : Tok) (x : Str) (hk : t.kind = .text) : storedOk T (upperTok t x) = true := by
+  simp [storedOk, upperTok, isMathTok, ctlEmpty, mbOk, hk]
+
+theorem capFirst_storedOk {ts r : List Tok} (h : ∀ t ∈ ts, storedOk T t = true) (hc : capFirst T ts = some r) :
+    ∀ t ∈ r, storedOk T t = true := by
+  unfold capFirst at hc
+  split at hc
+  · cases hc; exact h
+  · rename_i i hi
+    obtain ⟨hlt, hk, -⟩ := List.findIdx?_eq_some_iff_getElem.mp hi
+    split at hc
+    · cases hc; exact h
+    · rename_i t ht
+      have : t = ts[i] := by
+        rw [List.getElem?_eq_getElem hlt] at ht; cases ht; rfl
+      split at hc
+      · cases hc
+      · cases hc
+        intro x hx
+        rcases List.mem_or_eq_of_mem_set hx with hx | rfl
+        · exact h x hx
+        · apply upperTok_storedOk
+          subst this
+          simpa using hk
+
+theorem capAll_storedOk {ts : List Tok} (h : ∀ t ∈ ts, storedOk T t = true) :
+    ∀ t ∈ capAll T ts, storedOk T t = true := by
+  intro x hx
+  unfold capAll at hx
+  rw [List.mem_map] at hx
+  obtain ⟨t, ht, rfl⟩ := hx
+  split
+  · rename_i hk
+    exact upperTok_storedOk T t _ (by simpa using hk)
+  · exact h t ht
+
+theorem BL_restamp_map {n p : Nat} {ts : List Tok} (h : ∀ t ∈ ts, storedOk T t = true) (hp : p < n) :
+    BL T n (ts.map (fun t => { t with pos := p, fix := true })) := by
+  intro x hx
+  rw [List.mem_map] at hx
+  obtain ⟨t, ht, rfl⟩ := hx
+  exact BTok_restamp T n p t (h t ht) hp
+
+theorem gloss_lookup {g : List (Str × List (Str × Option (List Tok)))} (hg : glossOk T g)
+    {p : Str × List (Str × Option (List Tok)) → Bool} {q : Str × Option (List Tok) → Bool}
+    {k : Str} {toks : List Tok}
+    (h : (g.find? p).bind (fun e => e.2.find? q) = some (k, some toks)) :
+    ∀ t ∈ toks, storedOk T t = true := by
+  obtain ⟨e, he, hq⟩ := Option.bind_eq_some_iff.mp h
+  exact hg e (List.mem_of_find?_eq_some he) _ (List.mem_of_find?_eq_some hq) toks rfl
+
+theorem kvOk_description {n : Nat} {kv : List (Str × Option (List Tok))} (h : kvOk T n kv)
+    (p : Str × Option (List Tok) → Bool) :
+    BL T n (((kv.reverse.find? p).bind (·.2)).getD []) := by
+  cases hf : (kv.reverse.find? p).bind (·.2) with
+  | none => exact BL_nil T n
+  | some ts =>
+    obtain ⟨e, he, hq⟩ := Option.bind_eq_some_iff.mp hf
+    exact h e (List.mem_reverse.mp (List.mem_of_find?_eq_some he)) ts hq
+
+theorem mem_dedup {α β} [BEq α] (kv acc : List (α × β)) :
+    ∀ x ∈ kv.foldl (fun acc e =>
+        if acc.any (·.1 == e.1) then acc.map (fun x => if x.1 == e.1 then e else x) else acc ++ [e]) acc,
+      x ∈ acc ∨ x ∈ kv := by
+  induction kv generalizing acc with
+  | nil => intro x hx; exact Or.inl hx
+  | cons e kv ih =>
+    intro x hx
+    rw [List.foldl_cons] at hx
+    rcases ih _ x hx with h | h
+    · split at h
+      · rw [List.mem_map] at h
+        obtain ⟨y, hy, rfl⟩ := h
+        split
+        · exact Or.inr (List.mem_cons_self)
+        · exact Or.inl hy
+      · rcases List.mem_append.mp h with h | h
+        · exact Or.inl h
+        · exact Or.inr (by simp at h; simp [h])
+    · exact Or.inr (List.mem_cons_of_mem _ h)
+
+theorem G_setGloss {nroot : Nat} {s : PState} (hg : G T nroot s) (label : Str) (e : GlossEntry)
+    (he : ∀ kv ∈ e, ∀ ts, kv.2 = some ts → ∀ t ∈ ts, storedOk T t = true) :
+    G T nroot { s with glossary := setGloss s.glossary label e } := by
+  refine { flows := hg.flows, macros := hg.macros, envs := hg.envs, gloss := ?_, root := hg.root,
+           inFrame := hg.inFrame }
+  intro x hx
+  simp only [setGloss] at hx
+  split at hx
+  · rw [List.mem_map] at hx
+    obtain ⟨y, hy, rfl⟩ := hx
+    split
+    · exact he
+    · exact hg.gloss y hy
+  · rcases List.mem_append.mp hx with hx | hx
+    · exact hg.gloss x hx
+    · simp at hx; subst hx; exact he
+
+
+section steps
+variable {T} {nroot fuel : Nat} (IH : AllSpecs T nroot fuel)
+include IH
+
+theorem text_step {st0 s : PState} (h0 : Good T nroot st0 s) (toks : List Tok)
+    (hb : BL T st0.latex.length toks) :
+    Post (getTextExpanded T fuel toks s) (fun _ s' => Good T nroot st0 s') := by
+  apply Post_mono _ _ _ (IH.text toks s h0.1 (by rw [Good_len T h0]; exact hb))
+  intro _ s' h1
+  exact Good_trans T h0 h1
+
+theorem keyvals_step {st0 s : PState} (h0 : Good T nroot st0 s) (buf : Buf)
+    (hb : BL T st0.latex.length buf) :
+    Post (parseKeyvals T fuel buf [] s) (fun r s' => Good T nroot st0 s' ∧ kvOk T st0.latex.length r) := by
+  apply Post_mono _ _ _ (IH.keyvals buf [] s h0.1 (by rw [Good_len T h0]; exact hb)
+    (by intro kv hkv; cases hkv))
+  intro r s' h1
+  exact ⟨Good_trans T h0 h1.1, by rw [← Good_len T h0]; exact h1.2⟩
+
+theorem expandKv_step {st0 s : PState} (h0 : Good T nroot st0 s) (kvs : List (Str × Option (List Tok)))
+    (hb : kvOk T st0.latex.length kvs) :
+    Post (expandKeyvals T fuel kvs s) (fun _ s' => Good T nroot st0 s') := by
+  apply Post_mono _ _ _ (IH.expandKv kvs s h0.1 (by rw [Good_len T h0]; exact hb))
+  intro _ s' h1
+  exact Good_trans T h0 h1
+
+theorem modDesc_step {st0 s : PState} (h0 : Good T nroot st0 s) (toks : List Tok)
+    (hb : BL T st0.latex.length toks) :
+    Post (modifyDescription T fuel toks s) (fun r s' => Good T nroot st0 s' ∧ BL T st0.latex.length r) := by
+  apply Post_mono _ _ _ (IH.modDesc toks s h0.1 (by rw [Good_len T h0]; exact hb))
+  intro r s' h1
+  exact ⟨Good_trans T h0 h1.1, by rw [← Good_len T h0]; exact h1.2⟩
+
+theorem loadModule_fold (hw : T.WFInv) (cls : Bool) (options : List KeyVal) (pos : Nat) (st0 : PState)
+    (names : List Str) (acc : List Tok) (s : PState) (hs : Good T nroot st0 s) (hacc : langOnly acc) :
+    Post (names.foldlM (m := M) (fun acc p => do
+        let o ← initPackage T fuel p ((findModule T cls p).getD (emptyModule p)) false options pos
+        pure (acc ++ o)) acc s) (fun r s' => Good T nroot st0 s' ∧ langOnly r) := by
+  induction names generalizing acc s with
+  | nil => exact Post_pure _ _ _ ⟨hs, hacc⟩
+  | cons p names ih =>
+    rw [List.foldlM_cons]
+    refine Post_bind _ _ _ (fun r s' => Good T nroot st0 s' ∧ langOnly r) _ ?_
+      (fun r s' h => ih r s' h.1 h.2)
+    have hm : ∀ m ∈ ((findModule T cls p).getD (emptyModule p)).macros ++
+        ((findModule T cls p).getD (emptyModule p)).envs, macroToksOk T m = true := by
+      cases hf : findModule T cls p with
+      | none => intro m hm; simp [emptyModule] at hm
+      | some md =>
+        have hmem : md ∈ T.packageModules ++ T.classModules := by
+          unfold findModule at hf
+          split at hf
+          · cases hf
+          · have := List.mem_of_find?_eq_some hf
+            split at this
+            · exact List.mem_append_right _ this
+            · exact List.mem_append_left _ this
+        exact hw.modules_ok md hmem
+    have he : ∀ e ∈ ((findModule T cls p).getD (emptyModule p)).envs, envOk T e = true := by
+      cases hf : findModule T cls p with
+      | none => intro e he; simp [emptyModule] at he
+      | some md =>
+        have hmem : md ∈ T.packageModules ++ T.classModules := by
+          unfold findModule at hf
+          split at hf
+          · cases hf
+          · have := List.mem_of_find?_eq_some hf
+            split at this
+            · exact List.mem_append_right _ this
+            · exact List.mem_append_left _ this
+        intro e he
+        apply hw.envs_ok
+        unfold allTableEnvs
+        exact List.mem_append_right _ (List.mem_flatMap.2 ⟨md, hmem, he⟩)
+    refine Post_bind _ _ _ _ _ (IH.init p _ false options pos s hs.1 hm he) (fun o s' h => ?_)
+    refine Post_pure _ _ _ ⟨Good_trans T hs h.1, ?_⟩
+    intro t ht
+    rcases List.mem_append.mp ht with ht | ht
+    · exact hacc t ht
+    · exact h.2 t ht
+
+end steps
+
+theorem latexError_step (hw : T.WFInv) {nroot : Nat} {st0 s : PState} (h0 : Good T nroot st0 s) (err : Str)
+    (pos : Nat) (hp : pos < st0.latex.length) :
+    Post (latexError T.toTables err pos s) (fun r s' => Good T nroot st0 s' ∧ BL T st0.latex.length r) := by
+  apply Post_mono _ _ _ (latexError_spec T hw err pos s (by rw [Good_len T h0]; exact hp))
+  intro r s' ⟨h1, h2⟩
+  refine ⟨?_, by rw [← Good_len T h0]; exact OL_BL T _ _ h1⟩
+  rw [h2]
+  exact ⟨G_diags T nroot s _ h0.1, h0.2⟩
+
+/-! ### the handlers -/
+
+section handlers
+variable {T} (hw : T.WFInv) {nroot fuel : Nat} (IH : AllSpecs T nroot fuel)
+  (buf : Buf) (mac : MacroDef) (args : List (List Tok)) (pos : Nat) (st : PState)
+  (hg : G T nroot st) (hb : BL T st.latex.length buf) (ha : ∀ a ∈ args, BL T st.latex.length a)
+  (hp : pos < st.latex.length)
+
+include hg in
+theorem handler_none :
+    Post (callHandler T (fuel + 1) .none buf mac args pos st)
+      (fun r st' => Good T nroot st st' ∧ BL T st.latex.length r) := by
+  simp only [callHandler]
+  exact Post_pure _ _ _ ⟨Good_refl T nroot st hg, BL_nil T _⟩
+
+theorem handler_opaqueH (name : Str) :
+    Post (callHandler T (fuel + 1) (.opaqueH name) buf mac args pos st)
+      (fun r st' => Good T nroot st st' ∧ BL T st.latex.length r) := by
+  simp only [callHandler]
+  exact Post_crash _ _ _
+
+include hg ha hp in
+theorem handler_theorem (title : Str) :
+    Post (callHandler T (fuel + 1) (.theorem title) buf mac args pos st)
+      (fun r st' => Good T nroot st st' ∧ BL T st.latex.length r) := by
+  simp only [callHandler]
+  refine Post_argBind args 0 _ st _ (fun a0 h0 => ?_)
+  have hA := ha a0 h0
+  cases hl : a0.getLast? with
+  | some l =>
+    dsimp only
+    have hlp := BL_last_pos T hA hl
+    refine Post_pure _ _ _ ⟨Good_refl T nroot st hg, ?_⟩
+    simp [BL_append, BL_cons, BL_nil, BTok_mkFix_text, BTok_mkFix_space, hp, hlp, hA]
+  | none =>
+    refine Post_pure _ _ _ ⟨Good_refl T nroot st hg, ?_⟩
+    simp [BL_cons, BL_nil, BTok_mkFix_text, BTok_mkFix_space, hp]
+
+include hw IH hg ha hp in
+theorem handler_phantom :
+    Post (callHandler T (fuel + 1) .phantom buf mac args pos st)
+      (fun r st' => Good T nroot st st' ∧ BL T st.latex.length r) := by
+  simp only [callHandler]
+  refine Post_argBind args 0 _ st _ (fun a h0 => ?_)
+  refine Post_bind _ _ _ _ _ (text_step IH (Good_refl T nroot st hg) a (ha a h0)) (fun txt s hs => ?_)
+  split
+  · refine Post_pure _ _ _ ⟨hs, ?_⟩
+    simp [BL_cons, BL_nil, BTok_mkTok_special T hw, hp]
+  · exact Post_pure _ _ _ ⟨hs, BL_nil T _⟩
+
+include IH hg ha hp in
+theorem handler_hspace :
+    Post (callHandler T (fuel + 1) .hspace buf mac args pos st)
+      (fun r st' => Good T nroot st st' ∧ BL T st.latex.length r) := by
+  simp only [callHandler]
+  refine Post_argBind args 1 _ st _ (fun a h0 => ?_)
+  refine Post_bind _ _ _ _ _ (text_step IH (Good_refl T nroot st hg) a (ha a h0)) (fun txt s hs => ?_)
+  split
+  · exact Post_pure _ _ _ ⟨hs, BL_nil T _⟩
+  · refine Post_pure _ _ _ ⟨hs, ?_⟩
+    simp [BL_cons, BL_nil, BTok_mkTok1_space, hp]
+
+include hg ha hp in
+theorem handler_cite :
+    Post (callHandler T (fuel + 1) .cite buf mac args pos st)
+      (fun r st' => Good T nroot st st' ∧ BL T st.latex.length r) := by
+  simp only [callHandler]
+  refine Post_argBind args 0 _ st _ (fun a0 h0 => ?_)
+  have hA := ha a0 h0
+  cases hl : a0.getLast? with
+  | some l =>
+    dsimp only
+    have hlp := BL_last_pos T hA hl
+    refine Post_pure _ _ _ ⟨Good_refl T nroot st hg, ?_⟩
+    simp [BL_append, BL_cons, BL_nil, BTok_mkFix_text, BTok_mkFix_space, BTok_mkTok1_text, BTok_mkAction,
+      hp, hlp, hA]
+  | none =>
+    refine Post_pure _ _ _ ⟨Good_refl T nroot st hg, ?_⟩
+    simp [BL_cons, BL_nil, BTok_mkFix_text, BTok_mkAction, hp]
+
+include IH hg ha in
+theorem handler_heading :
+    Post (callHandler T (fuel + 1) .heading buf mac args pos st)
+      (fun r st' => Good T nroot st st' ∧ BL T st.latex.length r) := by
+  simp only [callHandler]
+  refine Post_argBind args 2 _ st _ (fun a h0 => ?_)
+  have hA := ha a h0
+  refine Post_bind _ _ _ _ _ (text_step IH (Good_refl T nroot st hg) a hA) (fun txt s hs => ?_)
+  cases hc : (strip txt).getLast? with
+  | none => exact Post_pure _ _ _ ⟨hs, hA⟩
+  | some c =>
+    cases hl : a.getLast? with
+    | none => exact Post_crash _ _ _
+    | some l =>
+      dsimp only
+      have hlp := BL_last_pos T hA hl
+      split
+      · refine Post_pure _ _ _ ⟨hs, ?_⟩
+        simp [BL_append, BL_cons, BL_nil, BTok_mkTok1_text, hlp, hA]
+      · exact Post_pure _ _ _ ⟨hs, hA⟩
+
+include IH hg ha hp in
+theorem handler_foreignlanguage :
+    Post (callHandler T (fuel + 1) .foreignlanguage buf mac args pos st)
+      (fun r st' => Good T nroot st st' ∧ BL T st.latex.length r) := by
+  simp only [callHandler]
+  refine Post_argBind args 1 _ st _ (fun a1 h1 => ?_)
+  refine Post_argBind args 2 _ st _ (fun a2 h2 => ?_)
+  have hA := ha a2 h2
+  refine Post_bind _ _ _ _ _ (text_step IH (Good_refl T nroot st hg) a1 (ha a1 h1)) (fun l s hs => ?_)
+  cases ht : translateLang T (strip l) with
+  | none => exact Post_crash _ _ _
+  | some lt =>
+    cases hl : a2.getLast? with
+    | none => exact Post_crash _ _ _
+    | some last =>
+      dsimp only
+      have hlp := BL_last_pos T hA hl
+      refine Post_pure _ _ _ ⟨hs, ?_⟩
+      simp [BL_append, BL_cons, BL_nil, BTok_mkLang, hp, hlp, hA]
+
+include IH hg ha hp in
+theorem handler_selectlanguage :
+    Post (callHandler T (fuel + 1) .selectlanguage buf mac args pos st)
+      (fun r st' => Good T nroot st st' ∧ BL T st.latex.length r) := by
+  simp only [callHandler]
+  refine Post_argBind args 0 _ st _ (fun a0 h0 => ?_)
+  refine Post_bind _ _ _ _ _ (text_step IH (Good_refl T nroot st hg) a0 (ha a0 h0)) (fun l s hs => ?_)
+  cases ht : translateLang T (strip l) with
+  | none => exact Post_crash _ _ _
+  | some lt =>
+    refine Post_pure _ _ _ ⟨hs, ?_⟩
+    simp [BL_cons, BL_nil, BTok_mkLang, hp]
+
+include IH hg ha hp in
+theorem handler_beginOtherlang :
+    Post (callHandler T (fuel + 1) .beginOtherlang buf mac args pos st)
+      (fun r st' => Good T nroot st st' ∧ BL T st.latex.length r) := by
+  simp only [callHandler]
+  refine Post_argBind args 0 _ st _ (fun a0 h0 => ?_)
+  refine Post_bind _ _ _ _ _ (text_step IH (Good_refl T nroot st hg) a0 (ha a0 h0)) (fun l s hs => ?_)
+  cases ht : translateLang T (strip l) with
+  | none => exact Post_crash _ _ _
+  | some lt =>
+    refine Post_pure _ _ _ ⟨hs, ?_⟩
+    simp [BL_cons, BL_nil, BTok_mkLang, hp]
+
+include hg hp in
+theorem handler_endOtherlang :
+    Post (callHandler T (fuel + 1) .endOtherlang buf mac args pos st)
+      (fun r st' => Good T nroot st st' ∧ BL T st.latex.length r) := by
+  simp only [callHandler]
+  refine Post_pure _ _ _ ⟨Good_refl T nroot st hg, ?_⟩
+  simp [BL_cons, BL_nil, BTok_mkLang, BTok_mkTok_xmacro, hp]
+
+include hg hp in
+theorem handler_endOtherlangStar :
+    Post (callHandler T (fuel + 1) .endOtherlangStar buf mac args pos st)
+      (fun r st' => Good T nroot st st' ∧ BL T st.latex.length r) := by
+  simp only [callHandler]
+  refine Post_pure _ _ _ ⟨Good_refl T nroot st hg, ?_⟩
+  simp [BL_cons, BL_nil, BTok_mkLang, hp]
+
+omit hw IH buf mac args pos st hg hb ha hp in
+theorem BL_substackLoop (hw : T.WFInv) (n : Nat) (lev : Int) (ts : List Tok) (h : BL T n ts) :
+    BL T n (substackLoop lev ts) := by
+  induction ts generalizing lev with
+  | nil => simpa [substackLoop] using BL_nil T n
+  | cons t ts ih =>
+    rw [BL_cons] at h
+    simp only [substackLoop]
+    rw [BL_cons]
+    exact ⟨ite_prop (BTok T n) _ _ _ (BTok_mkTok_special T hw n t.pos _ (by simp) h.1.1.1) h.1, ih _ h.2⟩
+
+include hw hg ha in
+theorem handler_substack :
+    Post (callHandler T (fuel + 1) .substack buf mac args pos st)
+      (fun r st' => Good T nroot st st' ∧ BL T st.latex.length r) := by
+  simp only [callHandler]
+  refine Post_argBind args 0 _ st _ (fun a0 h0 => ?_)
+  exact Post_pure _ _ _ ⟨Good_refl T nroot st hg, BL_substackLoop hw _ _ _ (ha a0 h0)⟩
+
+include hg ha hp in
+theorem handler_proof :
+    Post (callHandler T (fuel + 1) .proof buf mac args pos st)
+      (fun r st' => Good T nroot st st' ∧ BL T st.latex.length r) := by
+  simp only [callHandler]
+  refine Post_argBind args 0 _ st _ (fun a0 h0 => ?_)
+  have hA := ha a0 h0
+  refine Post_getBind _ st _ ?_
+  have hret : BL T st.latex.length (if (!a0.isEmpty) = true then a0
+      else [mkFix .text pos (((settingsOf T (curSettings st)).map (·.proofName)).getD [])]) := by
+    apply ite_prop (BL T st.latex.length) _ _ _ hA
+    simp [BL_cons, BL_nil, BTok_mkFix_text, hp]
+  generalize (if (!a0.isEmpty) = true then a0
+      else [mkFix .text pos (((settingsOf T (curSettings st)).map (·.proofName)).getD [])]) = ret at hret
+  cases hl : ret.getLast? with
+  | none => exact Post_crash _ _ _
+  | some l =>
+    dsimp only
+    have hlp := BL_last_pos T hret hl
+    refine Post_pure _ _ _ ⟨Good_refl T nroot st hg, ?_⟩
+    simp [BL_append, BL_cons, BL_nil, BTok_mkFix_text, BTok_mkFix_space, hlp, hret]
+
+include hg hp in
+theorem handler_xspace :
+    Post (callHandler T (fuel + 1) .xspace buf mac args pos st)
+      (fun r st' => Good T nroot st st' ∧ BL T st.latex.length r) := by
+  simp only [callHandler]
+  cases hh : buf.head? with
+  | none => exact Post_pure _ _ _ ⟨Good_refl T nroot st hg, BL_nil T _⟩
+  | some t =>
+    dsimp only
+    split
+    · exact Post_pure _ _ _ ⟨Good_refl T nroot st hg, BL_nil T _⟩
+    · refine Post_pure _ _ _ ⟨Good_refl T nroot st hg, ?_⟩
+      simp [BL_cons, BL_nil, BTok_mkTok1_space, hp]
+
+include IH hg ha in
+theorem handler_newacronym :
+    Post (callHandler T (fuel + 1) .newacronym buf mac args pos st)
+      (fun r st' => Good T nroot st st' ∧ BL T st.latex.length r) := by
+  simp only [callHandler]
+  refine Post_argBind args 2 _ st _ (fun a2 h2 => ?_)
+  exact modDesc_step IH (Good_refl T nroot st hg) a2 (ha a2 h2)
+
+include hw IH hg ha in
+theorem handler_newcommand :
+    Post (callHandler T (fuel + 1) .newcommand buf mac args pos st)
+      (fun r st' => Good T nroot st st' ∧ BL T st.latex.length r) := by
+  simp only [callHandler]
+  refine Post_argBind args 1 _ st _ (fun a1 h1 => ?_)
+  refine Post_argBind args 2 _ st _ (fun a2 h2 => ?_)
+  refine Post_argBind args 3 _ st _ (fun a3 h3 => ?_)
+  refine Post_argBind args 4 _ st _ (fun a4 h4 => ?_)
+  refine Post_getBind _ st _ ?_
+  split
+  · exact Post_pure _ _ _ ⟨Good_refl T nroot st hg, BL_nil T _⟩
+  · refine Post_bind _ _ _ _ _ (text_step IH (Good_refl T nroot st hg) a2 (ha a2 h2)) (fun ns s hs => ?_)
+    have hA3 := ha a3 h3
+    have hA4 := ha a4 h4
+    generalize (if (!List.isEmpty ns && _) = true then _ else 0) = nargs
+    generalize hf : List.find? _ a4 = o
+    cases o with
+    | some bad =>
+      exact latexError_step T hw hs _ _ (BTok_pos T (hA4 bad (List.mem_of_find?_eq_some hf)))
+    | none =>
+      dsimp only
+      split
+      · split
+        · cases hh : a1.head? with
+          | none => exact Post_crash _ _ _
+          | some t => exact latexError_step T hw hs _ _ (BL_head_pos T (ha a1 h1) hh)
+        · refine Post_modifyPure _ _ _ _ ⟨⟨G_setMacros T hs.1 _ ?_, hs.2⟩, BL_nil T _⟩
+          simp [macroToksOk, BL_all_storedOk T hA3, BL_all_storedOk T hA4]
+      · refine Post_modifyPure _ _ _ _ ⟨⟨G_setMacros T hs.1 _ ?_, hs.2⟩, BL_nil T _⟩
+        simp [macroToksOk, BL_all_storedOk T hA4]
+
+include IH hg ha in
+theorem handler_newtheorem :
+    Post (callHandler T (fuel + 1) .newtheorem buf mac args pos st)
+      (fun r st' => Good T nroot st st' ∧ BL T st.latex.length r) := by
+  simp only [callHandler]
+  refine Post_argBind args 0 _ st _ (fun a0 h0 => ?_)
+  refine Post_argBind args 2 _ st _ (fun a2 h2 => ?_)
+  refine Post_bind _ _ _ _ _ (text_step IH (Good_refl T nroot st hg) a0 (ha a0 h0)) (fun name s hs => ?_)
+  refine Post_bind _ _ _ _ _ (text_step IH hs a2 (ha a2 h2)) (fun title s' hs' => ?_)
+  refine Post_modifyPure _ _ _ _ ⟨⟨G_setEnvs T hs'.1 _ ?_ ?_, hs'.2⟩, BL_nil T _⟩
+  · simp [macroToksOk]
+  · simp [envOk]
+
+include hg ha hp in
+theorem handler_bibCite :
+    Post (callHandler T (fuel + 1) .bibCite buf mac args pos st)
+      (fun r st' => Good T nroot st st' ∧ BL T st.latex.length r) := by
+  simp only [callHandler]
+  cases h : bibCite T args pos with
+  | none => exact Post_crash _ _ _
+  | some o => exact Post_pure _ _ _ ⟨Good_refl T nroot st hg, BL_bibCite T _ args pos o ha hp h⟩
+
+include hw hg ha hp in
+theorem handler_footcite :
+    Post (callHandler T (fuel + 1) .footcite buf mac args pos st)
+      (fun r st' => Good T nroot st st' ∧ BL T st.latex.length r) := by
+  simp only [callHandler]
+  cases h : bibCite T args pos with
+  | none => exact Post_crash _ _ _
+  | some o =>
+    dsimp only
+    have ho := BL_bibCite T _ args pos o ha hp h
+    have hlp := lastPos_lt T ho hp
+    generalize (Option.map _ o.getLast?).getD pos = lp at hlp
+    refine Post_pure _ _ _ ⟨Good_refl T nroot st hg, ?_⟩
+    simp [BL_append, BL_cons, BL_nil, BTok_mkFix_text, BTok_mkAction, BTok_mkTok_xmacro,
+      BTok_mkTok_special T hw, hp, hlp, ho]
+
+include hw IH hg ha hp in
+theorem handler_gls (key : Str) (cf ca : Bool) :
+    Post (callHandler T (fuel + 1) (.gls key cf ca) buf mac args pos st)
+      (fun r st' => Good T nroot st st' ∧ BL T st.latex.length r) := by
+  simp only [callHandler]
+  refine Post_argBind args 1 _ st _ (fun a1 h1 => ?_)
+  refine Post_bind _ _ _ _ _ (text_step IH (Good_refl T nroot st hg) a1 (ha a1 h1)) (fun label s hs => ?_)
+  refine Post_getBind _ s _ ?_
+  generalize he : Option.bind (List.find? _ s.glossary) _ = entry
+  match entry, he with
+  | none, _ => exact latexError_step T hw hs _ _ hp
+  | some (_, none), _ => exact Post_crash _ _ _
+  | some (k, some toks), he =>
+    dsimp only
+    have hst := gloss_lookup T hs.1.gloss he
+    generalize hc : (if cf = true then capFirst T toks else some toks) = c
+    cases c with
+    | none => exact Post_crash _ _ _
+    | some t1 =>
+      dsimp only
+      have h1 : ∀ t ∈ t1, storedOk T t = true := by
+        split at hc
+        · exact capFirst_storedOk T hst hc
+        · cases hc; exact hst
+      refine Post_pure _ _ _ ⟨hs, BL_restamp_map T ?_ hp⟩
+      exact ite_prop (fun l => ∀ t ∈ l, storedOk T t = true) _ _ _ (capAll_storedOk T h1) h1
+
+include IH hg ha in
+theorem handler_newglossaryentry :
+    Post (callHandler T (fuel + 1) .newglossaryentry buf mac args pos st)
+      (fun r st' => Good T nroot st st' ∧ BL T st.latex.length r) := by
+  simp only [callHandler]
+  refine Post_argBind args 1 _ st _ (fun a1 h1 => ?_)
+  refine Post_bind _ _ _ _ _ (keyvals_step IH (Good_refl T nroot st hg) a1 (ha a1 h1)) (fun kv s hs => ?_)
+  exact modDesc_step IH hs.1 _ (kvOk_description T hs.2 _)
+
+include IH hg ha in
+theorem handler_parseGlsdefs :
+    Post (callHandler T (fuel + 1) .parseGlsdefs buf mac args pos st)
+      (fun r st' => Good T nroot st st' ∧ BL T st.latex.length r) := by
+  simp only [callHandler]
+  refine Post_argBind args 0 _ st _ (fun a0 h0 => ?_)
+  refine Post_argBind args 1 _ st _ (fun a1 h1 => ?_)
+  refine Post_bind _ _ _ _ _ (text_step IH (Good_refl T nroot st hg) a0 (ha a0 h0)) (fun label s hs => ?_)
+  refine Post_bind _ _ _ _ _ (keyvals_step IH hs a1 (ha a1 h1)) (fun kv s' hs' => ?_)
+  refine Post_modifyPure _ _ _ _ ⟨⟨G_setGloss T hs'.1.1 _ _ ?_, hs'.1.2⟩, BL_nil T _⟩
+  intro e he ts hts t ht
+  rcases mem_dedup kv [] e he with h | h
+  · cases h
+  · exact BTok_storedOk T _ t (hs'.2 e h ts hts t ht)
+
+include hw IH hg ha hp in
+theorem handler_loadDefs :
+    Post (callHandler T (fuel + 1) .loadDefs buf mac args pos st)
+      (fun r st' => Good T nroot st st' ∧ BL T st.latex.length r) := by
+  simp only [callHandler]
+  refine Post_getBind _ st _ ?_
+  split
+  · exact Post_pure _ _ _ ⟨Good_refl T nroot st hg, BL_nil T _⟩
+  · refine Post_argBind args 0 _ st _ (fun a0 h0 => ?_)
+    refine Post_bind _ _ _ _ _ (text_step IH (Good_refl T nroot st hg) a0 (ha a0 h0)) (fun file s hs => ?_)
+    refine Post_getBind _ s _ ?_
+    cases hf : List.find? (fun x => x.fst == file) s.fs with
+    | none => exact latexError_step T hw hs _ _ hp
+    | some f =>
+      dsimp only
+      refine Post_bind _ _ _ (fun _ s1 => s1 = { s with extracted := [] }) _ (Post_modify _ _ _ rfl) ?_
+      rintro _ s1 rfl
+      have hG0 : G0 T nroot { s with extracted := [] } :=
+        { flows := fun _ e he => (by cases he), macros := hs.1.macros, envs := hs.1.envs, gloss := hs.1.gloss }
+      refine Post_bind _ _ _ _ _ (IH.work f.2 _ hG0 (fun h => absurd h hs.1.inFrame) hs.1.root)
+        (fun toks s2 h2 => ?_)
+      obtain ⟨hG2, hSame, hOL⟩ := h2
+      refine Post_modifyPure _ _ _ _ ⟨⟨?_, ?_⟩, ?_⟩
+      · have e1 : s2.nest = s.nest := hSame.2
+        have e2 : s2.latex = s.latex := hSame.1
+        refine { flows := hs.1.flows, macros := hG2.macros, envs := hG2.envs, gloss := hG2.gloss,
+                 root := ?_, inFrame := ?_ }
+        · intro h
+          show s2.latex.length = nroot
+          rw [e2]; exact hs.1.root (e1 ▸ h)
+        · intro h
+          exact hs.1.inFrame (e1 ▸ h)
+      · exact ⟨(show s2.latex = s.latex from hSame.1).trans hs.2.1,
+               (show s2.nest = s.nest from hSame.2).trans hs.2.2⟩
+      · exact BL_filterSetToks_lang T _ _ pos toks hp hOL
+
+include hw IH hg ha hp in
+theorem handler_loadModule (cls : Bool) :
+    Post (callHandler T (fuel + 1) (.loadModule cls) buf mac args pos st)
+      (fun r st' => Good T nroot st st' ∧ BL T st.latex.length r) := by
+  simp only [callHandler]
+  refine Post_argBind args 0 _ st _ (fun a0 h0 => ?_)
+  refine Post_argBind args 1 _ st _ (fun a1 h1 => ?_)
+  refine Post_bind _ _ _ _ _ (keyvals_step IH (Good_refl T nroot st hg) a0 (ha a0 h0)) (fun kv s hs => ?_)
+  refine Post_bind _ _ _ _ _ (expandKv_step IH hs.1 kv hs.2) (fun options s2 hs2 => ?_)
+  refine Post_bind _ _ _ _ _ (text_step IH hs2 a1 (ha a1 h1)) (fun packs s3 hs3 => ?_)
+  refine Post_bind _ _ _ _ _ (loadModule_fold IH hw cls options pos st _ [] s3 hs3 (by intro t ht; cases ht))
+    (fun out s4 hs4 => ?_)
+  exact Post_pure _ _ _ ⟨hs4.1, BL_filterSetToks T _ pos out hp hs4.2⟩
+
+end handlers
+
+end HandlerStep
+
+open HandlerStep in
 theorem handler_step (hw : T.WFInv) (nroot fuel : Nat) (IH : AllSpecs T nroot fuel) :
     SpecHandler T nroot (fuel + 1) := by
-  sorry
+  intro h buf mac args pos st hg _hb ha hp
+  cases h with
+  | none => exact handler_none buf mac args pos st hg
+  | newcommand => exact handler_newcommand hw IH buf mac args pos st hg ha
+  | newtheorem => exact handler_newtheorem IH buf mac args pos st hg ha
+  | «theorem» title => exact handler_theorem buf mac args pos st hg ha hp title
+  | heading => exact handler_heading IH buf mac args pos st hg ha
+  | phantom => exact handler_phantom hw IH buf mac args pos st hg ha hp
+  | hspace => exact handler_hspace IH buf mac args pos st hg ha hp
+  | cite => exact handler_cite buf mac args pos st hg ha hp
+  | loadDefs => exact handler_loadDefs hw IH buf mac args pos st hg ha hp
+  | loadModule cls => exact handler_loadModule hw IH buf mac args pos st hg ha hp cls
+  | foreignlanguage => exact handler_foreignlanguage IH buf mac args pos st hg ha hp
+  | selectlanguage => exact handler_selectlanguage IH buf mac args pos st hg ha hp
+  | beginOtherlang => exact handler_beginOtherlang IH buf mac args pos st hg ha hp
+  | endOtherlang => exact handler_endOtherlang buf mac args pos st hg hp
+  | endOtherlangStar => exact handler_endOtherlangStar buf mac args pos st hg hp
+  | substack => exact handler_substack hw buf mac args pos st hg ha
+  | proof => exact handler_proof buf mac args pos st hg ha hp
+  | bibCite => exact handler_bibCite buf mac args pos st hg ha hp
+  | footcite => exact handler_footcite hw buf mac args pos st hg ha hp
+  | xspace => exact handler_xspace buf mac args pos st hg hp
+  | gls key cf ca => exact handler_gls hw IH buf mac args pos st hg ha hp key cf ca
+  | newacronym => exact handler_newacronym IH buf mac args pos st hg ha
+  | newglossaryentry => exact handler_newglossaryentry IH buf mac args pos st hg ha
+  | parseGlsdefs => exact handler_parseGlsdefs IH buf mac args pos st hg ha
+  | opaqueH name => exact handler_opaqueH buf mac args pos st name
 
 end Yalafi
